@@ -291,8 +291,22 @@ def _pool_init(limit_memory=True):
         pass
 
 
+_tainted = False            # a case of this worker was interrupted: library-level state may be half-updated
+
+
+class _Tainted(object):
+    """result computed in a worker after one of its cases was interrupted by the timer"""
+    def __init__(self, r):
+        self.r = r
+
+
 def _pool_call(a):
-    global _timeouts_in_a_row
+    r = _pool_call_raw(a)
+    return _Tainted(r) if _tainted and not (isinstance(r, tuple) and r and r[0] == 'TIMEOUT') else r
+
+
+def _pool_call_raw(a):
+    global _timeouts_in_a_row, _tainted
     fn, arg, secs = a
     if _timeouts_in_a_row >= GIVE_UP_AFTER:
         return ('TIMEOUT', 'worker gave up after %d consecutive timeouts' % GIVE_UP_AFTER)
@@ -302,9 +316,11 @@ def _pool_call(a):
         return r
     except CaseTimeout:
         _timeouts_in_a_row += 1
+        _tainted = True
         return ('TIMEOUT',)
     except MemoryError:
         _timeouts_in_a_row += 1
+        _tainted = True
         return ('TIMEOUT', 'MemoryError (address-space limit of the worker)')
     except RecursionError:
         return ('RECURSION',)
@@ -327,7 +343,7 @@ def pmap(fn, args, secs=5.0, procs=None):
     procs = procs or NPROC
     if len(args) < 64 or procs == 1:
         _pool_init(limit_memory=False)
-        return [_pool_call((fn, a, secs)) for a in args]
+        return [_pool_call_raw((fn, a, secs)) for a in args]
     # wall-clock budget for one stream: a code change that makes every case slow (but not hang) must not keep the
     # check running for hours; what is not evaluated in time is reported as TIMEOUT (a harness-level failure)
     budget = float(os.environ.get('VERIF_STREAM_BUDGET') or STREAM_BUDGET)
@@ -346,7 +362,44 @@ def pmap(fn, args, secs=5.0, procs=None):
                 pool.terminate()
                 out += [('TIMEOUT', 'stream budget of %d s exhausted' % int(budget))] * (len(items) - len(out))
                 break
-    return out
+    return _settle(fn, args, secs, out)
+
+
+SUSPECT = set()             # indices (of the last pmap call) whose result comes from a tainted worker
+RECHECK_LIMIT = 200
+
+
+def fresh_eval(fn, arg, secs):
+    """evaluate one case in a brand-new process (no state left over from other cases)"""
+    with multiprocessing.get_context('fork').Pool(1, initializer=_pool_init) as pool:
+        try:
+            r = pool.apply_async(_pool_call_raw, ((fn, arg, secs),)).get(timeout=secs + 30)
+        except multiprocessing.TimeoutError:
+            pool.terminate()
+            r = ('TIMEOUT', 'also in a fresh process with %d s' % int(secs))
+    return r
+
+
+def _settle(fn, args, secs, out):
+    """unwrap results; a case that timed out in the pool (machine load, or state damaged by an earlier interruption)
+    is evaluated once more, alone, in a fresh process with four times the time"""
+    global SUSPECT
+    SUSPECT = set()
+    res = []
+    for i, r in enumerate(out):
+        if isinstance(r, _Tainted):
+            SUSPECT.add(i)
+            r = r.r
+        res.append(r)
+    again = [i for i, r in enumerate(res) if isinstance(r, tuple) and r and r[0] == 'TIMEOUT'
+             and not (len(r) > 1 and 'budget' in str(r[1]))][:RECHECK_LIMIT]
+    still = 0
+    for i in again[:20]:
+        res[i] = fresh_eval(fn, args[i], secs * 4)
+        still = still + 1 if isinstance(res[i], tuple) and res[i] and res[i][0] == 'TIMEOUT' else 0
+        if still >= 3:
+            break               # it hangs on its own, not because of the load: no point in waiting for the rest
+    return res
 
 
 # ----------------------------------------------------------------------------
